@@ -44,6 +44,19 @@ deriving Repr, Inhabited
 
 namespace UOp
 
+/-- Dataclass `__eq__` of operations (frozenset equality for projections). -/
+def beq : UOp → UOp → Bool
+  | .calc t e, .calc t' e' => t == t' && e == e'
+  | .dedup, .dedup => true
+  | .identity, .identity => true
+  | .proj c, .proj c' => c.seteq c'
+  | .sel p, .sel q => p == q
+  | .slice s e, .slice s' e' => s == s' && e == e'
+  | .sort ts, .sort ts' => ts == ts'
+  | _, _ => false
+
+instance : BEq UOp := ⟨beq⟩
+
 /-! ### Constructors with the `__post_init__` checks -/
 
 /-- `Slice(start, stop)`: `ValueError` for a negative start or `stop < start`. -/
